@@ -188,6 +188,20 @@ impl Space for SweepSpace {
     }
 }
 
+/// the spaces of this property without running them (for `nfmc replay`)
+pub fn replay_spaces(tier: &str) -> Vec<Box<dyn Space>> {
+    let release = std::env::current_exe().unwrap().to_string_lossy().to_string();
+    let dev = release.replace("/release/", "/debug/");
+    let mut v: Vec<Box<dyn Space>> = vec![];
+    for (profile, binary) in [("release", release), ("dev", dev)] {
+        for (fi, (fam, labels)) in families(tier, profile).into_iter().enumerate() {
+            let cfg = SweepCfg { binary: binary.clone(), mode: format!("c01-{}", profile), tier: tier.to_string(), family_index: fi, workers: 1, horizon: Duration::from_secs(180), budget: 2 << 30, chunk: 1 };
+            v.push(Box::new(SweepSpace { cfg, fam, labels, profile: profile.to_string() }));
+        }
+    }
+    v
+}
+
 pub fn run(tier: &str) -> i32 {
     let t0 = Instant::now();
     let known = Known::load();
